@@ -21,7 +21,12 @@ func (c *base64Padder) pad(buf []byte) (int, error) {
 
 func (c *base64Padder) Read(buf []byte) (int, error) {
 	n, err := c.Reader.Read(buf)
-	c.count += n
+	// line ends are not part of the encoding (the decoder skips them), so they do not count towards the padding
+	for _, b := range buf[:n] {
+		if b != '\n' && b != '\r' {
+			c.count++
+		}
+	}
 
 	if err == io.EOF && c.count%4 != 0 {
 		return c.pad(buf)
